@@ -147,6 +147,9 @@ theorem ampNeedsEscape_false {T : Tbl} {d : Nat} {ds : PStr} (h : ampNeedsEscape
         ((∀ tl, (d :: ds).drop (spanLen isNameChar (d :: ds)) ≠ 59 :: tl) ∧
           T.toChar.get ((d :: ds).take (spanLen isNameChar (d :: ds))) = none ∧ legacyPrefix T (d :: ds) = false)) := by
   unfold ampNeedsEscape at h
+  rw [Bool.or_eq_false_iff] at h
+  replace h := h.1
+  unfold ampNeedsEscapeMid at h
   simp only [Bool.or_eq_false_iff, decide_eq_false_iff_not, Bool.and_eq_false_iff, Option.isSome_eq_false_iff,
     Option.isNone_iff_eq_none] at h
   obtain ⟨⟨h1, h2⟩, h3⟩ := h
